@@ -89,12 +89,27 @@ StrategyOK(e) ==
             /\ ((Has(e, "wdev") /\ e.mode \in {"quarter", "tenth", "third"}) => e.wdev <= 64)     \* float data: equal at the quantum (only where the width is many ulps of the data: not for the offset / big modes)
             /\ (~e.isfloat => e.n_bins = e.bins_len))                 \* advertised number of bins = bins built
 
+(* GridBuilder: one strategy per column, then a histogram of the rows over the grid (C12, 1..3 dimensions) *)
+GridBuilderOK(e) ==
+    IF e.n = 0 THEN e.out = "EmptyInput"
+    ELSE IF \E j \in DOMAIN e.ndistinct : e.ndistinct[j] = 1 THEN e.out = "Strategy"
+    ELSE e.out \in {"ok", "Strategy"} /\
+         (e.out = "ok" =>
+            /\ e.ndim = Len(e.ndistinct) /\ Len(e.pcols) = e.ndim
+            /\ \A j \in DOMAIN e.pcols :
+                  LET c == e.pcols[j] IN
+                  /\ Len(c.e2) >= 2 /\ IsSortedWeak(c.e2)
+                  /\ c.e2[1] = 2 /\ c.e2[Len(c.e2)] > 2 * c.nvals /\ c.e2[Len(c.e2) - 1] <= 2 * c.nvals
+                  /\ c.covered = e.n
+            /\ e.hist_total = e.n)
+
 Stateless(e) ==
     CASE e.ev = "hist_matrix" -> MatrixOK(e)
       [] e.ev = "edges"       -> EdgesOK(e)
       [] e.ev = "grid"        -> GridOK(e)
       [] e.ev = "index"       -> IndexOK(e)
       [] e.ev = "strategy"    -> StrategyOK(e)
+      [] e.ev = "gridbuilder" -> GridBuilderOK(e)
       [] OTHER -> FALSE
 
 (* drift: integer data under the data-size strategies - the documented bin count and the exact edges *)
